@@ -9,7 +9,7 @@ E2 = "E2 seqmc"
 CHECKS = {
  "C01": (E1, "model_checking", "stateless DFS over all schedules of the instrumented sources (controlled scheduler, happens-before state caching) + bounded-exhaustive content sweep",
          "every schedule / select choice of 1-2 RPC scenarios with 0..2 (thorough 0..3) messages per direction on both transports, with a prefix monitor at every receive return; all message shapes of a stated pool under the default schedule",
-         "sequentially consistent interleavings at sync-operation granularity; HTTP scenarios run over the memhttp model of net/http (bound to reality by native loopback conformance runs)", "6/C01"),
+         "sequentially consistent interleavings at sync-operation granularity, plus tracked accesses to the harness's own message objects (application overwrite / scribble, cloner, codec) where a scenario says so; HTTP scenarios run over the memhttp model of net/http (bound to reality by native loopback conformance runs) with its environment options (early-response rule or full duplex, writer without Flush, coalescing reads, server-side request deadline)", "6/C01 and 11.2"),
  "C02": (E1, "model_checking", "bounded-exhaustive enumeration of handler outcomes and of every truncation point of recorded replies against a reference status function validated against grpc-go (E2 part) + stateless DFS over all schedules and cancellation instants of error-at-position scripts (E1 part)",
          "E2 part: every member of transport x kind x handler outcome (19 codes x 10 messages x 13 detail lists + plain/context/EOF/wrapped errors) x position x encodability, and every proper prefix of 19 recorded replies with clean and abrupt endings, through the real client and server; E1 part: success only if the handler returned nil and the response is complete, under every interleaving and cancellation placement",
          "HTTP exchange of the E2 part runs on a recorder / serialised http.Response; E1 part as C01", "6/C02"),
@@ -24,7 +24,7 @@ CHECKS = {
          "as C01; net/http's early-response rule is modelled with both alternatives (discard to EOF / give up beyond 256 KB)", "6/C05"),
  "C06": (E1, "model_checking", "vector-clock happens-before check of every cloner read over all schedules + exhaustive in-place-mutation disjointness sweep",
          "every read the library makes of a caller's message is ordered (vector clocks) before the call returned to the caller, over all schedules incl. cancellation; request/response objects share no mutable memory for every message shape x cloner configuration x kind",
-         "as C01; torn reads below sync-operation granularity are outside the model", "6/C06"),
+         "as C01; reads and writes of library-internal plain memory below sync-operation granularity are outside the model (accesses to the application's own messages are tracked)", "6/C06 and 11.2"),
  "C07": (E2, "fault_enumeration", "exhaustive fault enumeration: hostile length prefixes and every truncation offset of recorded bodies",
          "every hostile frame sequence of a stated grammar and every byte offset of every recorded request/response body, with clean and abrupt endings, fed to the real client and server decoders; panics, over-allocation, fabricated messages and unreported truncation are violations",
          "bodies are replayed through canned RoundTrippers / recorders; allocation measured via runtime.MemStats in a child process", "6/C07"),
